@@ -280,7 +280,8 @@ Definition start_op (s : gstate) (tid : nat) (th : thread) (o : op) : res :=
       else if is_none (onceHeld s) then park (set_closedFlag (set_onceHeld s (Some tid)) true) th P101
       else None                                            (* blocked in closeOnce.Do *)
   | OMiss =>
-      if closedFlag s || (head s =? tail s) || negb (is_none (drainMu s)) then finish s th 0 0   (* Get on a closed cache returns at once *)
+      (* Cache.get returns at once when the cache is closed *)
+      if closedFlag s || (head s =? tail s) || negb (is_none (drainMu s)) then finish s th 0 0
       else drain_start (set_drainMu s (Some tid)) th
   | OTryDequeue _ => drain_start s th
   | OTakeWake => finish (set_wakeTok s false) th (b2z (wakeTok s)) 0
